@@ -2,7 +2,8 @@
 // generic: what each call QUEUES.  Contract: every entry point queues exactly one call of the system that implements it -
 // broadcast -> schedule_broadcast_reaction::<E>(event); entity_event -> schedule_entity_event_reaction::<E>((entity, event));
 // trigger_resource_mutation -> schedule_resource_mutation_reaction::<R>; revoke -> revoke_reactor(token);
-// (`with`/`on*`/`once` are not opened: the generic system argument cannot be tied to its input by the stand-in Commands.)
+// with / on / on_persistent / on_revokable -> ONE spawn_system_command (on*) and ONE register_reactors((triggers, reactor, mode)) with the
+// mode the entry point stands for; a token only for Revokable.  (`once` is not opened: nested closures over `&mut World`.)
 // insert -> NOTHING when the entity does not exist at call time, else try_insert(React{entity, component}) followed by
 // schedule_insertion_reaction::<C>(entity).  (The systems themselves: units `cache`, `revoke`, K.dispatch.*.)
 use vstd::prelude::*;
@@ -18,9 +19,18 @@ pub trait ReactionTriggerBundle: Copy {}
 pub struct In<T>(pub T);
 //@struct src/react/react_component.rs React
 
-pub enum Queued { Syscall { sys: int, input: int }, TryInsert { entity: Entity, bundle: int } }
+pub enum Queued { Syscall { sys: int, input: int }, TryInsert { entity: Entity, bundle: int }, SpawnSystem { id: SystemCommand, system: int } }
+pub trait CobwebResult {}
+pub trait IntoSystem<I, O, M>: Sized {}
+pub uninterp spec fn fresh_system(log: Seq<Queued>) -> SystemCommand;
 pub uninterp spec fn sys_id<S>(s: S) -> int;
 pub uninterp spec fn enc<I>(i: I) -> int;
+// a system function and the input it takes (ties the generic parameters of a system item to the input handed to the syscall,
+// the way Bevy's IntoSystem does)
+pub struct HasIn; pub struct NoIn;
+pub trait SysFn<I, M> {}
+impl<I, F: Fn(In<I>)> SysFn<I, HasIn> for F {}
+impl<F: Fn()> SysFn<(), NoIn> for F {}
 // ---- ASSUMED: Commands / EntityCommands = handles to one command queue ------------------------------------------------
 #[verifier::external_body] pub struct CommandsInner<'w> { _p: core::marker::PhantomData<&'w ()> }
 pub type Commands<'w, 's> = &'s mut CommandsInner<'w>;
@@ -40,8 +50,13 @@ impl<'w> CommandsInner<'w> {
     pub uninterp spec fn alive(&self) -> Set<Entity>;
     // CommandsSyscallExt::syscall_with_validation(input, system, validation): queues ONE command that runs `system` with `input`
     #[verifier::external_body]
-    pub fn syscall_with_validation<I, S, V>(&mut self, input: I, sys: S, validation: V)
+    pub fn syscall_with_validation<I, M, S: SysFn<I, M>, V>(&mut self, input: I, sys: S, validation: V)
         ensures final(self).log() == old(self).log().push(Queued::Syscall { sys: sys_id(sys), input: enc(input) }), final(self).alive() == old(self).alive(),
+    { unimplemented!() }
+    // ReactCommandsExt::spawn_system_command(system): queues the spawn of ONE system-command entity holding `system`, returns its id
+    #[verifier::external_body]
+    pub fn spawn_system_command<S>(&mut self, system: S) -> (r: SystemCommand)
+        ensures r == fresh_system(old(self).log()), final(self).log() == old(self).log().push(Queued::SpawnSystem { id: r, system: enc(system) }), final(self).alive() == old(self).alive(),
     { unimplemented!() }
     #[verifier::external_body]
     pub fn get_entity(&mut self, e: Entity) -> (r: Option<EntityCommands<'_>>)
@@ -71,6 +86,8 @@ impl RevokeToken {
     { unimplemented!() }
 }
 
+/// the ONE queued call that registers `triggers` for reactor `sc` under `mode`
+pub open spec fn reg_call<T: ReactionTriggerBundle>(triggers: T, sc: SystemCommand, mode: ReactorMode) -> Queued { Queued::Syscall { sys: sys_id(register_reactors::<T>), input: enc((triggers, sc, mode)) } }
 //@struct src/react/react_commands.rs ReactCommands
 pub open spec fn one_call<S, I>(before: Seq<Queued>, after: Seq<Queued>, sys: S, input: I) -> bool { after == before.push(Queued::Syscall { sys: sys_id(sys), input: enc(input) }) }
 //@impl src/react/react_commands.rs impl ReactCommands
@@ -88,6 +105,25 @@ pub open spec fn one_call<S, I>(before: Seq<Queued>, after: Seq<Queued>, sys: S,
 //@| ensures one_call(old(self).commands.log(), final(self).commands.log(), ReactCache::schedule_resource_mutation_reaction::<R>, ()), *final(final(self).commands) == *final(old(self).commands),
 //@fn src/react/react_commands.rs impl ReactCommands revoke
 //@| ensures one_call(old(self).commands.log(), final(self).commands.log(), revoke_reactor, token), *final(final(self).commands) == *final(old(self).commands),
+// on / on_persistent / on_revokable: ONE system command is spawned from the reactor, then ONE registration of the whole bundle for
+// it under the mode the entry point stands for: on -> Cleanup (ref-counted, collected when its last trigger is gone),
+// on_persistent -> Persistent (never ref-counted; its id is returned), on_revokable -> Revokable (its token is returned).
+//@fn src/react/react_commands.rs impl ReactCommands on
+//@| ensures ({ let sc = fresh_system(old(self).commands.log());
+//@|     final(self).commands.log() == old(self).commands.log().push(Queued::SpawnSystem { id: sc, system: enc(reactor) }).push(reg_call(triggers, sc, ReactorMode::Cleanup)) }),
+//@|     *final(final(self).commands) == *final(old(self).commands),
+//@fn src/react/react_commands.rs impl ReactCommands on_persistent ret=r
+//@| ensures ({ let sc = fresh_system(old(self).commands.log());
+//@|     r == sc && final(self).commands.log() == old(self).commands.log().push(Queued::SpawnSystem { id: sc, system: enc(reactor) }).push(reg_call(triggers, sc, ReactorMode::Persistent)) }),
+//@|     *final(final(self).commands) == *final(old(self).commands),
+//@fn src/react/react_commands.rs impl ReactCommands on_revokable ret=r
+//@| ensures ({ let sc = fresh_system(old(self).commands.log());
+//@|     r == token_of(sc, triggers) && final(self).commands.log() == old(self).commands.log().push(Queued::SpawnSystem { id: sc, system: enc(reactor) }).push(reg_call(triggers, sc, ReactorMode::Revokable)) }),
+//@|     *final(final(self).commands) == *final(old(self).commands),
+//@fn src/react/react_commands.rs impl ReactCommands with ret=r
+//@| ensures final(self).commands.log() == old(self).commands.log().push(reg_call(triggers, sys_command, mode)),
+//@|         r == (if mode is Revokable { Some(token_of(sys_command, triggers)) } else { None::<RevokeToken> }),
+//@|         *final(final(self).commands) == *final(old(self).commands),
 //@endimpl
 
 } // verus!
